@@ -130,7 +130,7 @@ def run(R):
         else:
             hr.append("HR %s %s %s %s %s" % (f[1], f[2], f[3], kind, f[4]))
     trace = os.path.join(cc.rundir(R), "trace")
-    modelled = ("NameFromBytes", "ReadName", "ComponentFromBytes", "ParseNat")
+    modelled = ("NameFromBytes", "ReadName", "ComponentFromBytes", "ParseNat", "ReadPacket", "ReadData", "ReadInterest")
     open(trace, "w").write("\n".join(dlines + [l for l in hr if l.split(" ")[1] in modelled]) + "\n")
     rc, rout, lines = cc.run_runner(R, rexe, trace, timeout=3000)
     if "DONE" not in rout:
